@@ -23,7 +23,7 @@ use std::time::{Duration, Instant};
 pub static META: PropMeta = PropMeta {
     id: "C04",
     level: "exploration",
-    rule: "cases: (a) sched: 1..3 sender threads with programs of send/try_send/clone/drop (1..6 steps, values tagged sender+sequence) on channel() or sync_channel(b), b in {0,1,2,8}, against a loop thread doing zero-timeout dispatches; the schedule over the sites before enqueue, between enqueue and wake, at the wake-on-drop, before every try_recv, before the self re-wake and around every eventfd write/drain is generated; a sender blocked in the kernel is detected via /proc and the loop keeps dispatching. oracle at quiescence: per sender the delivered values equal the values whose send returned Ok, in order, each once; Closed exactly once, only after every sender is gone and after all messages, nothing after it, then the slot is free; with a sender kept alive no Closed; try_send(Full) hands the value back; a blocking send returns while the loop keeps dispatching. (b) hist: single-thread histories judged by the history monitor. (c) batch: 0/1/1023/1024/1025/3000 queued messages and bound+1 batches drain completely over consecutive dispatches without external wake. non-trivial (sched): sites of >= 2 threads interleave (a sender step between another thread's enqueue and wake, or between the loop's drain and dispatch end), or a sync channel was Full/blocked at least once; distinct by case fingerprint",
+    rule: "cases: (a) sched: 1..3 sender threads with programs of send/try_send/clone/drop (1..6 steps, values tagged sender+sequence) on channel() or sync_channel(b), b in {0,1,2,8}, against a loop thread doing zero-timeout dispatches; the schedule over the sites before enqueue, between enqueue and wake, at the wake-on-drop, before every try_recv, before the self re-wake and around every eventfd write/drain is generated; a sender blocked in the kernel is detected via /proc and the loop keeps dispatching. oracle at quiescence: per sender the delivered values equal the values whose send returned Ok, in order, each once; Closed exactly once, only after every sender is gone and after all messages, nothing after it, then the slot is free; with a sender kept alive no Closed; try_send(Full) hands the value back; a blocking send returns while the loop keeps dispatching. (b) hist: single-thread histories judged by the history monitor. (d) free: the same sender programs on 2..3 free-running OS threads released together by a spin barrier (real concurrency, for races whose window holds no yield site; bounds None/1/2/8) against the dispatching loop, end-state oracle: per sender delivered == sent-Ok in order after every sender finished and 4 more dispatches, Closed exactly once (never with a kept sender), nothing after it, slot freed. (c) batch: 0/1/1023/1024/1025/3000 queued messages and bound+1 batches drain completely over consecutive dispatches without external wake. non-trivial (sched): sites of >= 2 threads interleave (a sender step between another thread's enqueue and wake, or between the loop's drain and dispatch end), or a sync channel was Full/blocked at least once; distinct by case fingerprint",
     assumptions: &[
         "interleavings are explored at the granularity of the yield sites of the hook commit, on x86-TSO with the real atomics",
         "a sender blocked in mpsc::SyncSender::send is detected through /proc/self/task/<tid>/stat; 'blocked for ever' is decided by state (loop kept dispatching 8 more times with the sender still blocked and no callback), never by a timeout alone",
@@ -630,6 +630,193 @@ pub static HIST: HistProp = HistProp {
     table: None,
 };
 
+// ------------------------------------------------------------------------------------------ free-running stress
+//
+// Same sender programs on free OS threads released together by a spin barrier (real concurrency, for races whose
+// window holds no yield site) against the dispatching loop. End-state oracle only.
+
+#[derive(Serialize, Deserialize, Debug, Clone, Hash)]
+pub struct FreeCase {
+    /// None = channel(), Some(b) = sync_channel(b), b >= 1 (bound 0 is the open finding F6)
+    pub bound: Option<u8>,
+    pub actors: Vec<Vec<SOp>>,
+    pub keep_one: bool,
+}
+
+fn free_strategy() -> impl Strategy<Value = FreeCase> {
+    (
+        prop_oneof![3 => Just(None), 4 => proptest::sample::select(vec![Some(1u8), Some(2), Some(8)])],
+        proptest::collection::vec(proptest::collection::vec(prop_oneof![5 => Just(SOp::Send), 3 => Just(SOp::TrySend), 1 => Just(SOp::Clone), 3 => Just(SOp::Drop)], 0..=5), 2..=3),
+        prop::bool::weighted(0.2),
+    )
+        .prop_map(|(bound, actors, keep_one)| FreeCase { bound, actors, keep_one })
+}
+
+pub fn run_free(case: &FreeCase) -> CaseOutcome {
+    use std::sync::atomic::AtomicUsize;
+    let mut info = CaseInfo { fingerprint: fingerprint(case), ..CaseInfo::default() };
+    let bound = case.bound.map(|b| b.max(1));
+    let n = case.actors.len().clamp(1, 4);
+    #[derive(Default)]
+    struct Got {
+        msgs: Vec<u32>,
+        closed: u32,
+        after_closed: u32,
+    }
+    let mut el: EventLoop<'static, Got> = EventLoop::try_new().expect("event loop");
+    let (first, chan): (Tx, Channel<u32>) = match bound {
+        None => {
+            let (s, c) = channel();
+            (Tx::U(s), c)
+        }
+        Some(b) => {
+            let (s, c) = sync_channel(b as usize);
+            (Tx::S(s), c)
+        }
+    };
+    el.handle()
+        .insert_source(chan, |ev: Event<u32>, _: &mut (), g: &mut Got| match ev {
+            Event::Msg(v) => {
+                if g.closed > 0 {
+                    g.after_closed += 1;
+                }
+                g.msgs.push(v)
+            }
+            Event::Closed => g.closed += 1,
+        })
+        .expect("insert channel");
+    let keep = if case.keep_one { Some(first.dup()) } else { None };
+    let go = Arc::new(AtomicUsize::new(0));
+    let done = Arc::new(AtomicUsize::new(0));
+    let sent: Arc<Mutex<Vec<Vec<u32>>>> = Arc::new(Mutex::new(vec![Vec::new(); n]));
+    let handback_wrong = Arc::new(AtomicBool::new(false));
+    let mut got = Got::default();
+    let mut timed_out = false;
+    std::thread::scope(|sc| {
+        for (ai, prog) in case.actors.iter().take(n).enumerate() {
+            let mut hs = vec![first.dup()];
+            let go = go.clone();
+            let done = done.clone();
+            let sent = sent.clone();
+            let prog = prog.clone();
+            let handback_wrong = handback_wrong.clone();
+            sc.spawn(move || {
+                go.fetch_add(1, Ordering::SeqCst);
+                while go.load(Ordering::SeqCst) < n + 1 {
+                    std::hint::spin_loop();
+                }
+                let mut seq = 0u32;
+                let mut mine = Vec::new();
+                for op in prog {
+                    match op {
+                        SOp::Send | SOp::TrySend => {
+                            let Some(tx) = hs.last() else { continue };
+                            seq += 1;
+                            let v = ((ai as u32) << 16) | seq;
+                            let ok = match tx {
+                                Tx::U(s) => s.send(v).is_ok(),
+                                Tx::S(s) => {
+                                    if op == SOp::Send {
+                                        s.send(v).is_ok()
+                                    } else {
+                                        match s.try_send(v) {
+                                            Ok(()) => true,
+                                            Err(mpsc::TrySendError::Full(back)) => {
+                                                if back != v {
+                                                    handback_wrong.store(true, Ordering::SeqCst);
+                                                }
+                                                false
+                                            }
+                                            Err(_) => false,
+                                        }
+                                    }
+                                }
+                            };
+                            if ok {
+                                mine.push(v);
+                            }
+                        }
+                        SOp::Clone => {
+                            if hs.len() < 3 {
+                                if let Some(t) = hs.last().map(|t| t.dup()) {
+                                    hs.push(t);
+                                }
+                            }
+                        }
+                        SOp::Drop => {
+                            hs.pop();
+                        }
+                        SOp::Settle => {}
+                    }
+                }
+                drop(hs);
+                sent.lock().unwrap()[ai] = mine;
+                done.fetch_add(1, Ordering::SeqCst);
+            });
+        }
+        drop(first);
+        while go.load(Ordering::SeqCst) < n {
+            std::hint::spin_loop();
+        }
+        go.fetch_add(1, Ordering::SeqCst);
+        let t0 = Instant::now();
+        while done.load(Ordering::SeqCst) < n {
+            el.dispatch(Some(Duration::ZERO), &mut got).expect("dispatch");
+            if t0.elapsed() > Duration::from_secs(20) {
+                timed_out = true;
+                break;
+            }
+        }
+        if timed_out {
+            // blocked senders: take their messages out so that the threads can end (the verdict is already fixed)
+            let t1 = Instant::now();
+            while done.load(Ordering::SeqCst) < n && t1.elapsed() < Duration::from_secs(10) {
+                el.dispatch(Some(Duration::from_millis(1)), &mut got).ok();
+            }
+        }
+    });
+    // all senders finished: whatever is queued has a pending wake-up, so a few dispatches must drain it
+    for _ in 0..4 {
+        el.dispatch(Some(Duration::ZERO), &mut got).expect("dispatch");
+    }
+    let occupied = el.handle().verif_stats().occupied_slots;
+    let sent = sent.lock().unwrap().clone();
+    let total: usize = sent.iter().map(|v| v.len()).sum();
+    info.nontrivial = case.actors.iter().take(n).filter(|p| !p.is_empty()).count() >= 2;
+    info.classes.push("free_running");
+    info.counters.push(("free_sent_ok", total as u64));
+    let mut viol = None;
+    if timed_out {
+        viol = Some(Violation::new("C04.blocked", format!("free-running: senders on sync_channel({bound:?}) still blocked after the loop dispatched for 20 s")));
+    }
+    if viol.is_none() && handback_wrong.load(Ordering::SeqCst) {
+        viol = Some(Violation::new("C04.once", "free-running: try_send(Full) handed back a different value".to_string()));
+    }
+    if viol.is_none() {
+        for (ai, want) in sent.iter().enumerate() {
+            let have: Vec<u32> = got.msgs.iter().copied().filter(|v| (v >> 16) as usize == ai).collect();
+            if &have != want {
+                let rule = if have.len() < want.len() { "C04.stranded" } else if have.len() > want.len() { "C04.once" } else { "C04.order" };
+                viol = Some(Violation::new(rule, format!("free-running: sender {ai} sent (Ok) {want:x?}, delivered {have:x?} after every sender finished and 4 more dispatches")));
+                break;
+            }
+        }
+    }
+    if viol.is_none() {
+        let want_closed = if case.keep_one { 0 } else { 1 };
+        if got.closed != want_closed || got.after_closed > 0 {
+            viol = Some(Violation::new(
+                "C04.closed",
+                format!("free-running: Closed delivered {} time(s) (expected {want_closed}), {} message(s) after it; all actor handles dropped, kept by harness: {}", got.closed, got.after_closed, case.keep_one),
+            ));
+        } else if occupied != if case.keep_one { 1 } else { 0 } {
+            viol = Some(Violation::new("C04.closed", format!("free-running: loop holds {occupied} sources after the channel closed / with a sender kept ({})", case.keep_one)));
+        }
+    }
+    drop(keep);
+    (info, viol)
+}
+
 pub fn check(ctx: &CheckCtx) -> Option<Found> {
     STEER_SYNC0.store(ctx.known_open(SIG_SYNC0), Ordering::SeqCst);
     // replays run with the steering off so that a listed finding is visible
@@ -645,8 +832,14 @@ pub fn check(ctx: &CheckCtx) -> Option<Found> {
     if let Some(f) = ctx.run_replays::<crate::hist::ops::HistCase, _>("hist", |c| run_case_for(&HIST, c)) {
         return Some(f);
     }
+    if let Some(f) = ctx.run_replays::<FreeCase, _>("free", run_free) {
+        return Some(f);
+    }
     let t = ctx.tier;
     if let Some(f) = ctx.search("sched", case_strategy(), t.pick(12_000, 200_000), 6, None, run_case) {
+        return Some(f);
+    }
+    if let Some(f) = ctx.search("free", free_strategy(), t.pick(3_000, 100_000), 4, None, run_free) {
         return Some(f);
     }
     // batch limit family (fixed list + random)
@@ -684,6 +877,10 @@ pub fn replay(_ctx: &CheckCtx, sub: &str, case: serde_json::Value) -> Result<Opt
         "batch" => {
             let c: BatchCase = serde_json::from_value(case).map_err(|e| e.to_string())?;
             Ok(run_batch(&c).1)
+        }
+        "free" => {
+            let c: FreeCase = serde_json::from_value(case).map_err(|e| e.to_string())?;
+            Ok(run_free(&c).1)
         }
         _ => {
             STEER_SYNC0.store(false, Ordering::SeqCst);
